@@ -481,27 +481,44 @@ def _lines(cfg, path) -> str:
 
 
 def _guard_atom(fa: FA, n: int, test: ast.AST):
-    """(polarity, isinstance call) if the truth of the test at node n is decided by exactly one
-    isinstance call: a bare call, its negation, or a conjunction whose other conjuncts are known to
-    be true at n (e.g. ``rng is not None`` after the generator was just constructed)."""
+    """(polarity, isinstance call) if the truth of the test at node n is decided by exactly one isinstance call: a bare call, its
+    negation, a conjunction whose other conjuncts are known to be true at n (``rng is not None`` after the generator was just
+    constructed), or a disjunction whose other disjuncts are known to be false (under the assumptions of this analysis)."""
     from ..fa import eval_truth
 
-    if isinstance(test, ast.Call) and isinstance(test.func, ast.Name) and test.func.id == "isinstance":
-        return True, test
-    if isinstance(test, ast.UnaryOp) and isinstance(test.op, ast.Not):
-        r = _guard_atom(fa, n, test.operand)
-        if r is not None:
-            return (not r[0]), r[1]
-        return None
-    if isinstance(test, ast.BoolOp) and isinstance(test.op, ast.And):
-        atoms = []
-        for v in test.values:
-            if isinstance(v, ast.Call) and isinstance(v.func, ast.Name) and v.func.id == "isinstance":
-                atoms.append(v)
-            elif eval_truth(fa.sym.term(v, n), fa.assume) is True:
-                continue
-            else:
-                return None
-        if len(atoms) == 1:
-            return True, atoms[0]
+    def red(e):
+        """-> True | False | (polarity, call) | None (not decided by one isinstance call)"""
+        if isinstance(e, ast.Call) and isinstance(e.func, ast.Name) and e.func.id == "isinstance":
+            tv = eval_truth(fa.sym.term(e, n), fa.assume)
+            return tv if tv is not None else (True, e)
+        if isinstance(e, ast.UnaryOp) and isinstance(e.op, ast.Not):
+            r = red(e.operand)
+            if isinstance(r, bool):
+                return not r
+            return None if r is None else ((not r[0]), r[1])
+        if isinstance(e, ast.BoolOp):
+            is_and = isinstance(e.op, ast.And)
+            atoms = []
+            for v in e.values:
+                r = red(v) if isinstance(v, (ast.BoolOp, ast.UnaryOp, ast.Call)) else None
+                if r is None:
+                    tv = eval_truth(fa.sym.term(v, n), fa.assume)
+                    if tv is None:
+                        return None
+                    r = tv
+                if isinstance(r, bool):
+                    if r is (not is_and):
+                        return r  # a false conjunct / a true disjunct decides the whole
+                    continue
+                atoms.append(r)
+            if not atoms:
+                return is_and
+            if len(atoms) == 1:
+                return atoms[0]
+            return None
+        tv = eval_truth(fa.sym.term(e, n), fa.assume)
+        return tv
+    r = red(test)
+    if isinstance(r, tuple):
+        return r
     return None
